@@ -1,3 +1,158 @@
-import PV.Lexer.SoftKw
+import PV.C08.Lemmas
+/-
+  PV.C08.Thm — "layout never changes the tree", the part that lives in the lexer.
+
+  The parser consumes only the token stream.  The theorems say: texts related by the layout rules of
+  `Spec.LayoutEq` have the same token stream once ranges are erased (same tokens with the same payloads, same
+  way of ending: end of input or the same kind of lexical error).  That equal range-erased token streams give
+  equal range-erased trees is NOT proved here (the LALRPOP automaton is not modelled); it is checked on every run
+  by the differential on the real parser (tools/props/c08.py, stream family `layout`).
+
+  Reading guide
+    * `rule_*`                 one theorem per place-dependent rule, in SUFFIX form and unconditional: in a lexer
+                               state satisfying the rule's side condition, the inserted layout text in front of
+                               the remaining input does not change the remaining run.  Each is a statement about
+                               one arm of the lexer model (blank arm, `#` arm, backslash arm, line-break arm with
+                               `nesting > 0`, `eat_indentation`).
+    * `lex_layout_invariant`   the whole-text theorem, closed under composition (induction on `LayoutEq`).
+    * `lexCore_regular`        the run neither exhausts its fuel nor reports a position beyond the text, so the
+                               fuel-free reading `LexRun` IS what `lex` computes.
+-/
 namespace PV.C08
+open PV.Lexer
+
+/-! ## per-rule theorems (suffix form) -/
+
+/-- blanks at a token gap (trailing whitespace): the blank arm emits nothing -/
+theorem rule_blanks_thm {cfg : Cfg} (hup : UpOk cfg.up) {st : LexState} (hb : st.atBol = false) {w : List Nat}
+    (hw : AllBlank w) (post : List Nat) (ts : List Tok) (e : EndK) :
+    RunsTo cfg st (w ++ post) ts e ↔ RunsTo cfg st post ts e := rule_blanks hup hb hw post ts e
+
+/-- a comment after code: the `#` arm emits nothing (default build) and stops in front of the line end -/
+theorem rule_commentAfter_thm {cfg : Cfg} (hup : UpOk cfg.up) (hf : cfg.fullLexer = false) {st : LexState}
+    (hb : st.atBol = false) {c : List Nat} (hc : IsComment c) {post : List Nat}
+    (hp : post = [] ∨ ∃ d r, post = d :: r ∧ isLineBreak d = true) (ts : List Tok) (e : EndK) :
+    RunsTo cfg st (c ++ post) ts e ↔ RunsTo cfg st post ts e := rule_commentAfter hup hf hb hc hp ts e
+
+/-- backslash + LF / CRLF / CR, not at the end of the text, produces no token and leaves the state alone -/
+theorem rule_backslashJoin_thm {cfg : Cfg} (hup : UpOk cfg.up) {st : LexState} (hb : st.atBol = false)
+    {e post : List Nat} (he : IsEol e) (hn : NoFuse e post) (hp : post ≠ []) (ts : List Tok) (k : EndK) :
+    RunsTo cfg st (92 :: e ++ post) ts k ↔ RunsTo cfg st post ts k := rule_backslashJoin hup hb he hn hp ts k
+
+/-- inside brackets (`nesting > 0`) a line end produces neither NEWLINE nor INDENT/DEDENT -/
+theorem rule_bracketBreak_thm {cfg : Cfg} (hup : UpOk cfg.up) (hf : cfg.fullLexer = false) {st : LexState}
+    (hb : st.atBol = false) (hnest : 0 < st.nesting) {e post : List Nat} (he : IsEol e) (hn : NoFuse e post)
+    (ts : List Tok) (k : EndK) :
+    RunsTo cfg st (e ++ post) ts k ↔ RunsTo cfg st post ts k := rule_bracketBreak hup hf hb hnest he hn ts k
+
+/-- at the start of a line, a blank or comment-only line with any (accepted) indentation is invisible:
+    `eat_indentation` resets its count at the line end -/
+theorem rule_blankLine_thm {cfg : Cfg} (hf : cfg.fullLexer = false) {st : LexState} (hb : st.atBol = true)
+    {w c e post : List Nat} (hw : BolBlank w) (hc : c = [] ∨ IsComment c) (he : IsEol e) (hn : NoFuse e post)
+    (ts : List Tok) (k : EndK) :
+    RunsTo cfg st ((w ++ c ++ e) ++ post) ts k ↔ RunsTo cfg st post ts k :=
+  rule_linePrefix hf hb (w ++ c ++ e) post (eatIndent_blankLine hw hc he hn) ts k
+
+/-- at the start of a line, blanks + form feed in front of the line's own indentation are invisible:
+    the form feed resets the count -/
+theorem rule_formFeed_thm {cfg : Cfg} (hf : cfg.fullLexer = false) {st : LexState} (hb : st.atBol = true)
+    {w post : List Nat} (hw : BolBlank w) (ts : List Tok) (k : EndK) :
+    RunsTo cfg st ((w ++ [12]) ++ post) ts k ↔ RunsTo cfg st post ts k :=
+  rule_linePrefix hf hb (w ++ [12]) post (eatIndent_formFeed hw) ts k
+
+/-- `next_char` folds LF, CRLF and CR to one LF -/
+theorem nextChar_folds {e post : List Nat} (he : IsEol e) (hn : NoFuse e post) :
+    nextChar (e ++ post) = some (10, e.length, post) := nextChar_eol he hn
+
+/-! ## whole texts -/
+
+/-- the lexer run of the model terminates within its fuel and stays inside the text (uses the step contract
+    proved by the C05 builder) -/
+theorem lexCore_regular_thm {cfg : Cfg} (hs : cfg.up.Sane) (start : Nat) (src : List Nat) :
+    (lexCore cfg (src.length + 1) start src).fin ≠ .outOfFuel ∧
+    (lexCore cfg (src.length + 1) start src).reachedB ≤ start + utf8Len src := lexCore_regular hs start src
+
+/-- layout-equivalent texts have the same lexer runs (fuel-free reading), rule by rule and closed under
+    composition.  `heol` is the CR/CRLF folding invariance of the run (`EolInv`). -/
+theorem lex_layout_invariant_runs {cfg : Cfg} (hup : UpOk cfg.up) (hf : cfg.fullLexer = false) (heol : EolInv cfg)
+    {a b : List Nat} (h : LayoutEq cfg a b) : ∀ ts e, LexRun cfg a ts e ↔ LexRun cfg b ts e := by
+  induction h with
+  | refl => intro ts e; rfl
+  | step h => exact layoutStep_run hup hf heol h
+  | symm _ ih => intro ts e; exact (ih ts e).symm
+  | trans _ _ ih1 ih2 => intro ts e; exact (ih1 ts e).trans (ih2 ts e)
+
+/-- **Layout never changes the token stream.**  For texts whose end offset fits `u32` (the Rust `TextSize`),
+    in every mode and from every start offset: layout-equivalent texts lex (including the soft-keyword pass) to
+    the same tokens and the same kind of end, ranges erased. -/
+theorem lex_layout_invariant {cfg : Cfg} (hup : UpOk cfg.up) (hf : cfg.fullLexer = false) (heol : EolInv cfg)
+    {a b : List Nat} (h : LayoutEq cfg a b) (mode : Mode) (start : Nat)
+    (ha : start + utf8Len a ≤ u32Max) (hb : start + utf8Len b ≤ u32Max) :
+    eraseRanges (lex cfg mode start a) = eraseRanges (lex cfg mode start b) :=
+  lex_eq_of_runs hup.sane (lex_layout_invariant_runs hup hf heol h) mode start ha hb
+
+/-! ## the hypotheses are satisfiable, the relation is not trivial -/
+
+/-- the ASCII instantiation of the Unicode parameters used by the drivers (non-ASCII: nothing) -/
+def asciiUp : UParams where
+  xidStart c := isAsciiLetter c
+  xidContinue c := isAsciiLetter c || isDigit c || c == 95
+  emoji _ := false
+
+def asciiCfg : Cfg := ⟨false, asciiUp⟩
+
+theorem asciiUp_ok : UpOk asciiUp := by
+  refine ⟨⟨?_, by decide, by decide⟩, ?_⟩
+  · intro c h; simp [asciiUp] at h ⊢; simp [h]
+  · intro c h
+    rcases h with h | h | h | h
+    · rcases isBlank_cases h with rfl | rfl | rfl <;> decide
+    · rcases isLineBreak_cases h with rfl | rfl <;> decide
+    · subst h; decide
+    · subst h; decide
+
+/-- `x⏎`  ~  `x␠⇥⏎`  (trailing blanks) -/
+example : LayoutEq asciiCfg [120, 10] [120, 32, 9, 10] := by
+  refine .step (LayoutStep.blanks (pre := [120]) (post := [10]) (w := [32, 9])
+    (st := ⟨false, 0, [⟨0, 0⟩]⟩) (ts := [.name [120]]) ⟨by decide, ?_⟩ ⟨by decide, ?_⟩ rfl ?_)
+  · exact Runs.cons (o := ⟨[⟨.name [120], 0, 1⟩], 1, ⟨false, 0, [⟨0, 0⟩]⟩, false⟩) (by rfl) rfl (Runs.nil _ _)
+  · exact Runs.cons (o := ⟨[⟨.name [120], 0, 1⟩], 1, ⟨false, 0, [⟨0, 0⟩]⟩, false⟩) (by rfl) rfl (Runs.nil _ _)
+  · intro c hc; simp at hc; rcases hc with rfl | rfl <;> decide
+
+/-- `x⏎y`  ~  `x⏎␠␠#c␍⏎y`  (a comment-only line, indented, ended by CRLF, at the start of line 2) -/
+example : LayoutEq asciiCfg [120, 10, 121] [120, 10, 32, 32, 35, 99, 13, 10, 121] := by
+  have h1 : step asciiCfg .init [120, 10, 121] = .ok ⟨[⟨.name [120], 0, 1⟩], 1, ⟨false, 0, [⟨0, 0⟩]⟩, false⟩ := by rfl
+  have h2 : step asciiCfg ⟨false, 0, [⟨0, 0⟩]⟩ [10, 121] = .ok ⟨[⟨.newline, 0, 1⟩], 1, ⟨true, 0, [⟨0, 0⟩]⟩, false⟩ := by rfl
+  have h1' : step asciiCfg .init [120, 10, 32, 32, 35, 99, 13, 10, 121] =
+      .ok ⟨[⟨.name [120], 0, 1⟩], 1, ⟨false, 0, [⟨0, 0⟩]⟩, false⟩ := by rfl
+  have h2' : step asciiCfg ⟨false, 0, [⟨0, 0⟩]⟩ [10, 32, 32, 35, 99, 13, 10, 121] =
+      .ok ⟨[⟨.newline, 0, 1⟩], 1, ⟨true, 0, [⟨0, 0⟩]⟩, false⟩ := by rfl
+  refine .step (LayoutStep.blankLine (pre := [120, 10]) (post := [121]) (w := [32, 32]) (c := [35, 99])
+    (e := [13, 10]) (st := ⟨true, 0, [⟨0, 0⟩]⟩) (ts := [.name [120], .newline])
+    ⟨by decide, ?_⟩ ⟨by decide, ?_⟩ rfl (by simp [BolBlank, measure]) (Or.inr ⟨[99], rfl, ?_⟩) .crlf (by intro h; cases h))
+  · exact Runs.cons h1 rfl (Runs.cons h2 rfl (Runs.nil _ _))
+  · exact Runs.cons h1' rfl (Runs.cons h2' rfl (Runs.nil _ _))
+  · intro c hc; simp at hc; subst hc; decide
+
+/-- `f(a)` ~ `f(⏎a)`  (a line break inside brackets) -/
+example : LayoutEq asciiCfg [102, 40, 97, 41] [102, 40, 10, 97, 41] := by
+  have h1 : step asciiCfg .init [102, 40, 97, 41] = .ok ⟨[⟨.name [102], 0, 1⟩], 1, ⟨false, 0, [⟨0, 0⟩]⟩, false⟩ := by rfl
+  have h2 : step asciiCfg ⟨false, 0, [⟨0, 0⟩]⟩ [40, 97, 41] = .ok ⟨[⟨.op .Lpar, 0, 1⟩], 1, ⟨false, 1, [⟨0, 0⟩]⟩, false⟩ := by rfl
+  have h1' : step asciiCfg .init [102, 40, 10, 97, 41] = .ok ⟨[⟨.name [102], 0, 1⟩], 1, ⟨false, 0, [⟨0, 0⟩]⟩, false⟩ := by rfl
+  have h2' : step asciiCfg ⟨false, 0, [⟨0, 0⟩]⟩ [40, 10, 97, 41] = .ok ⟨[⟨.op .Lpar, 0, 1⟩], 1, ⟨false, 1, [⟨0, 0⟩]⟩, false⟩ := by rfl
+  refine .step (LayoutStep.bracketBreak (pre := [102, 40]) (post := [97, 41]) (e := [10])
+    (st := ⟨false, 1, [⟨0, 0⟩]⟩) (ts := [.name [102], .op .Lpar])
+    ⟨by decide, ?_⟩ ⟨by decide, ?_⟩ rfl (by decide) .lf (by intro h; cases h))
+  · exact Runs.cons h1 rfl (Runs.cons h2 rfl (Runs.nil _ _))
+  · exact Runs.cons h1' rfl (Runs.cons h2' rfl (Runs.nil _ _))
+
+/-- line ends and BOM: `a⏎b` ~ `a␍⏎b` ~ `a␍b` ~ BOM `a␍b` -/
+example : LayoutEq asciiCfg [97, 10, 98] [0xFEFF, 97, 13, 98] :=
+  .trans (.step (.eol (a := [97, 10, 98]) (b := [97, 13, 98]) (by decide))) (.step (.bom (by decide)))
+
+/-- the relation does not relate everything: texts with different tokens are not layout-equivalent (so the
+    theorem is not vacuous in the other direction either) — an instance of the theorem -/
+example : eraseRanges (lex asciiCfg .module 0 [120, 10]) ≠ eraseRanges (lex asciiCfg .module 0 [121, 10]) := by
+  decide
+
 end PV.C08
